@@ -488,3 +488,35 @@ for re_ in (True, False):
              requires=['T > 0', 'self.elec_model.spin >= 0'],
              ensures=[('electronic-energy-only', 'result == self.elec_model.get_UoRT(T=T)')],
              raises={'AttributeError': 'raise_error'}, cross_check=False)
+
+# ---- species with several extra (misc) models: partition functions multiply, everything else adds ----------------------
+def misc(n):
+    return New('pmutt.statmech:ConstantMode', q=Real(0.5, 3.), Cv=Real(0., 3.), Cp=Real(0., 3.), U=Real(-3., 3.), H=Real(-3., 3.),
+               S=Real(0., 3.), F=Real(-3., 3.), G=Real(-3., 3.))
+
+
+def species_with_misc():
+    return New(SM, name=Const('A'), trans_model=ft3(), elec_model=gse(), nucl_model=New(NU + 'EmptyNucl'),
+               misc_models=ListOf([misc('m1'), misc('m2')]))
+
+
+MREQ = ['T > 0', 'P > 0', 'self.trans_model.molecular_weight > 0', 'self.elec_model.spin >= 0']
+for q in ('q', 'SoR', 'HoRT', 'GoRT', 'CpoR'):
+    op = ' * ' if q == 'q' else ' + '
+    margs = MODE_ARGS[q]
+    parts = ['self.%s.get_%s(%s)' % (m, q, margs[k]) for k, m in ((0, 'trans_model'), (3, 'elec_model'), (4, 'nucl_model'))]
+    marg = 'T=T' if q in ('UoRT', 'HoRT', 'FoRT', 'GoRT') else ''
+    parts += ['self.misc_models[%d].get_%s(%s)' % (k, q, marg) for k in (0, 1)]
+    contract(SM + '.get_' + q, P, label='two-misc-models',
+             args=dict(self=species_with_misc(), T=T, P=PRES), requires=MREQ,
+             ensures=[('total-is-%s-of-modes-and-misc-models' % ('product' if q == 'q' else 'sum'), 'result == ' + op.join(parts))],
+             cross_check=False)
+    contract(SM + '.get_' + q, P, label='two-misc-models,verbose',
+             args=dict(self=species_with_misc(), T=T, P=PRES, verbose=Const(True)), requires=MREQ,
+             ensures=[('one-entry-per-misc-model',
+                       'len(result) == 8 and result[6] == self.misc_models[0].get_%s(%s) and '
+                       'result[7] == self.misc_models[1].get_%s(%s)' % (q, marg, q, marg))],
+             cross_check=False)
+
+from contracts import helpers
+helpers.install(P, 'kwargs', 'numpy_op', ('convert_unit', [('bar', ['Pa']), ('g', ['kg']), ('amu', ['kg']), ('A2', ['m2'])]))
